@@ -11,7 +11,7 @@ conf = open(d + '/confirm.txt').read()
 meta = {'property': prop, 'seed': name, 'needs_to_manifest': needs,
         'confirmed': {'how': 'tools/confirm_seed.sh in a scratch worktree of /repo: demo.py with and without the patch, then the full unedited test suite with the patch applied',
                       'result': conf.strip().splitlines()},
-        'base_commit': 'c724729',
+        'base_commit': 'e6987bf',
         'detected_by': None}
 json.dump(meta, open(d + '/meta.json', 'w'), indent=1)
 PY
